@@ -3,9 +3,17 @@ package podeni
 // C15 — the cpuSet NUMA hint annotation never panics the PodENI controller.
 
 import (
+	"context"
 	"encoding/json"
 	"fmt"
 	"testing"
+
+	corev1 "k8s.io/api/core/v1"
+	metav1 "k8s.io/apimachinery/pkg/apis/meta/v1"
+	"sigs.k8s.io/controller-runtime/pkg/client/fake"
+
+	"github.com/AliyunContainerService/terway/pkg/controller/status"
+	"github.com/AliyunContainerService/terway/types"
 
 	g "github.com/AliyunContainerService/terway/zz_verif/c15gen"
 	"github.com/AliyunContainerService/terway/zz_verif/vt"
@@ -80,3 +88,137 @@ func vfC15RunNuma(c *vt.Ctx, s vfC15NumaScenario) {
 }
 
 func TestVerifC15NumaHints(t *testing.T) { vt.Run(t, vfC15GenNuma, g.NoPanic(vfC15RunNuma)) }
+
+// ---------------------------------------------------------------------------------
+// The parsed hint in use: getENIIndex (pod + node from the API server, node-status cache
+// with 0..5 network cards, some already holding ENIs) hands the hint to
+// status.NodeStatus.RequestNetworkIndex, which selects a card with it. attachENI calls
+// this inside an errgroup goroutine, where a panic is not recovered by controller-runtime.
+
+type vfC15IndexScenario struct {
+	Kind     string   `json:"kind"`
+	CPUSet   *g.Bytes `json:"cpuset"`    // nil: annotation absent
+	Cards    int      `json:"cards"`     // -1: node not in the cache
+	Occupied []int    `json:"occupied"`  // card index (mod cards) of ENIs already placed
+	Again    bool     `json:"again"`     // ask a second time for the same ENI (re-placement)
+	PodGone  bool     `json:"pod_gone"`  // pod not found
+	NodeGone bool     `json:"node_gone"` // node object not found
+}
+
+// a cpuSet with exactly one numeric second-level key: the shape whose value is used
+func vfC15SingleHint(t *rapid.T) []byte {
+	key := rapid.OneOf(
+		rapid.SampledFrom([]string{"0", "1", "2", "3", "4", "7", "-1", "-2", "00", "01", "+1", "+2", "x", "", " 1", "1.0", "1e1",
+			"2147483647", "2147483648", "9223372036854775807", "9223372036854775808", "-9223372036854775808", "٣"}),
+		rapid.Map(rapid.IntRange(-3, 70), func(i int) string { return fmt.Sprint(i) }),
+		rapid.Map(rapid.IntRange(0, 5), func(i int) string { return fmt.Sprint(i) }),
+		rapid.Map(rapid.IntRange(2, 9), func(i int) string { return fmt.Sprint(i) }),
+	).Draw(t, "hint")
+	out := map[string]map[string]any{}
+	for i, n := 0, rapid.IntRange(1, 2).Draw(t, "nctr"); i < n; i++ {
+		out[fmt.Sprintf("ctr%d", i)] = map[string]any{key: map[string]any{}}
+	}
+	return g.MustJSON(out)
+}
+
+func vfC15GenIndex(t *rapid.T) vfC15IndexScenario {
+	s := vfC15IndexScenario{Kind: g.Kind(t)}
+	if rapid.IntRange(0, 9).Draw(t, "present") > 0 {
+		valid := vfC15SingleHint
+		if rapid.IntRange(0, 3).Draw(t, "multi") == 0 {
+			valid = vfC15ValidCPUSet
+		}
+		v := g.JSONField(t, s.Kind, valid, []string{`{"a":{"2":{}}}`, `{"a":{"3":null}}`, `{"a":{"2":{}},"b":{"2":{}}}`, `{"a":{"0":{},"2":{}}}`,
+			`{"a":{"-1":{}}}`, `{"a":{"9223372036854775807":{}}}`, `{"a":{"1":{}},"b":null}`, `{"a":null}`})
+		s.CPUSet = &v
+	}
+	s.Cards = rapid.SampledFrom([]int{-1, 0, 1, 2, 2, 2, 2, 3, 3, 4, 4, 4, 5}).Draw(t, "cards")
+	s.Occupied = rapid.SliceOfN(rapid.IntRange(0, 7), 0, 6).Draw(t, "occupied")
+	s.Again = rapid.Bool().Draw(t, "again")
+	s.PodGone = rapid.IntRange(0, 15).Draw(t, "podgone") == 0
+	s.NodeGone = rapid.IntRange(0, 15).Draw(t, "nodegone") == 0
+	return s
+}
+
+func vfC15RunIndex(c *vt.Ctx, s vfC15IndexScenario) {
+	c.Label("kind:" + s.Kind)
+	pod := &corev1.Pod{ObjectMeta: metav1.ObjectMeta{Name: "p", Namespace: "ns"}}
+	pod.Spec.NodeName = "node-1"
+	if s.CPUSet != nil {
+		pod.Annotations = map[string]string{"cpuSet": string(*s.CPUSet)}
+	}
+	node := &corev1.Node{ObjectMeta: metav1.ObjectMeta{Name: "node-1", Labels: map[string]string{"node.kubernetes.io/instance-type": "ecs.x"}}}
+	b := fake.NewClientBuilder().WithScheme(types.Scheme)
+	if !s.PodGone {
+		b = b.WithObjects(pod)
+	}
+	if !s.NodeGone {
+		b = b.WithObjects(node)
+	}
+	cache := status.NewCache[status.NodeStatus]()
+	if s.Cards >= 0 {
+		ns := status.NewNodeStatus(s.Cards)
+		if s.Cards > 0 {
+			for i, k := range s.Occupied {
+				idx := k % s.Cards
+				ns.RequestNetworkIndex(fmt.Sprintf("eni-old-%d", i), &idx, nil)
+			}
+		}
+		cache.LoadOrStore("node-1", ns)
+	}
+	m := &ReconcilePodENI{client: b.Build(), nodeStatusCache: cache}
+
+	hints := podNumaHints(pod.Annotations)
+	switch {
+	case len(hints) != 1:
+		c.Labelf("hints:%d", len(hints))
+	case hints[0] < 0:
+		c.Label("hint:negative")
+	case hints[0] <= 1:
+		c.Label("hint:0-1")
+	case hints[0] <= 3:
+		c.Label("hint:2-3")
+	default:
+		c.Label("hint:>3")
+	}
+	reached := !s.PodGone && !s.NodeGone && s.Cards >= 2
+	if reached {
+		c.Label("reached:RequestNetworkIndex")
+		if len(hints) == 1 && hints[0] >= 0 {
+			// non-trivial: a user-written hint is actually used to select a card
+			c.NonTrivial()
+		}
+	}
+
+	ctx := context.Background()
+	check := func(idx *int) {
+		if idx == nil {
+			c.Label("index:none")
+			return
+		}
+		c.Label("index:chosen")
+		if !reached {
+			c.Fatalf("an index (%d) was chosen although the card selection cannot have been reached", *idx)
+		}
+		if *idx < 0 || *idx >= s.Cards {
+			c.Fatalf("chosen network card index %d is not one of the node's %d cards", *idx, s.Cards)
+		}
+	}
+	check(m.getENIIndex(ctx, "ns", "p", "eni-new"))
+	if s.Again {
+		check(m.getENIIndex(ctx, "ns", "p", "eni-new"))
+		check(m.getENIIndex(ctx, "ns", "p", "eni-new-2"))
+	}
+	// the reconcile entry also looks the node up (cache hit: no cloud call)
+	if s.Cards >= 0 {
+		ctx2 := m.injectNodeStatus(ctx, "ns", "p")
+		if _, ok := status.MetaCtx[status.NodeStatus](ctx2); !ok && !s.PodGone && !s.NodeGone {
+			c.Label("inject:no-meta")
+		}
+	}
+	if ns, ok := cache.Get("node-1"); ok {
+		ns.DetachNetworkIndex("eni-new")
+	}
+}
+
+func TestVerifC15ENIIndex(t *testing.T) { vt.Run(t, vfC15GenIndex, g.NoPanic(vfC15RunIndex)) }
